@@ -20,6 +20,12 @@ pub fn root() -> PathBuf {
 }
 
 pub fn work_dir() -> PathBuf {
+    // workers share the driver's scratch directory (removed by the driver at the end)
+    if let Ok(d) = std::env::var("GBSIM_WORK") {
+        let d = PathBuf::from(d);
+        let _ = std::fs::create_dir_all(&d);
+        return d;
+    }
     let d = root().join("work").join(format!("{}", std::process::id()));
     std::fs::create_dir_all(&d).expect("create work dir");
     d
@@ -469,6 +475,8 @@ pub fn check_main(property: &str, tier: &str) -> i32 {
         return 2;
     }
     println!("VERIF_SEED={} property={} tier={}", seed, property, tier);
+    let wd = work_dir();
+    std::env::set_var("GBSIM_WORK", &wd);
     let known = load_known();
     let total_secs: u64 = std::env::var("VERIF_THOROUGH_SECS").ok().and_then(|s| s.parse().ok()).unwrap_or(600);
     let mut merged = Cov::new();
